@@ -8,7 +8,7 @@ from pyvc.driver import Extra
 ID = "C16"
 LEVEL = "proof"
 SIDECARS = ["contracts.spacetime"]
-TARGETS = ["SBlock.__init__", "SBlock.add", "Canvas.__init__", "Canvas.__rel_coord", "Canvas.get_space_tuple",
+TARGETS = ["SBlock.__init__", "SBlock.add", "Canvas.__init__", "Canvas.create_canvas", "Canvas.__rel_coord", "Canvas.get_space_tuple",
            "Canvas.get_time_tuple", "Canvas.add_activity", "Graphics.__init__", "Graphics.make_header",
            "Graphics.make_body"]
 TECHNIQUE = ("contracts on the graphics translators (stamp and access-point shape of every activity, one activity per "
@@ -49,6 +49,16 @@ EINSUMS = [
 
 EXTRA = [
     # (label, declaration, expression, partitioning lines under the output, loop order)
+    # flattened inputs (labels starting with "flattened": stamped by position only - a coordinate-style stamp of a
+    # flattened rank is the open C06 finding and is not repeated here)
+    ("flattened input under an occupancy split", {"A": "[K, M]", "B": "[K, N]", "Z": "[M, N]"}, "Z[m, n] = A[k, m] * B[k, n]",
+     ["(M, K): [flatten()]", "MK: [uniform_occupancy(A.4)]"], ["MK1", "MK0", "N"]),
+    ("flattened level of a shape split (SIGMA style)", {"A": "[K, M]", "B": "[K, N]", "Z": "[M, N]"}, "Z[m, n] = A[k, m] * B[k, n]",
+     ["K: [uniform_shape(4)]", "(M, K0): [flatten()]", "MK0: [uniform_occupancy(A.5)]"], ["K1", "MK01", "MK00", "N"]),
+    ("flattened input, unsplit", {"A": "[I, J, K]", "B": "[J]", "Z": "[I]"}, "Z[i] = A[i, j, k] * B[j]",
+     ["(I, J): [flatten()]"], ["IJ", "K"]),
+    ("occupancy split at the top level", {"A": "[K, M]", "B": "[K, N]", "Z": "[M, N]"}, "Z[m, n] = A[k, m] * B[k, n]",
+     ["K: [uniform_occupancy(A.5)]"], ["K1", "K0", "M", "N"]),
     ("index math over a 3-level shape split", {"A": "[K]", "Z": "[M]"}, "Z[m] = A[2 * m]",
      ["M: [uniform_shape(10), uniform_shape(5)]", "K: [follow(M)]"], ["M2", "M1", "M0"]),
     ("shape then occupancy split", {"A": "[K, M]", "B": "[K, N]", "Z": "[M, N]"}, "Z[m, n] = A[k, m] * B[k, n]",
@@ -103,7 +113,7 @@ def family(tier):
             if tier != "thorough" and si % 2 and len(space) == 2:
                 continue
             time_ = [r for r in lo if r not in space]
-            for style in ("pos", "coord", "mixed"):
+            for style in (("pos",) if label.startswith("flattened") else ("pos", "coord", "mixed")):
                 for slip in (False, True):
                     def st(r, i):
                         s = style if style != "mixed" else ("pos" if i % 2 else "coord")
@@ -242,7 +252,7 @@ def check_one(base_yaml, st_yaml, desc):
     except Exception:      # noqa
         pass
     lines = disp.split("\n")
-    upd = [i for i, l in enumerate(lines) if re.search(r"_ref (\+|<<)= ", l) or re.search(r"_ref = ", l)]
+    upd = [i for i, l in enumerate(lines) if re.search(r"_ref (\+|<<)= ", l) or (re.search(r"_ref = ", l) and ".getPayloadRef(" not in l)]
     act = [i for i, l in enumerate(lines) if "canvas.addActivity(" in l]
     if len(upd) != len(act):
         probs.append("%d update statements but %d addActivity statements" % (len(upd), len(act)))
@@ -306,6 +316,14 @@ def bounded(uni, tier, seed):
 
 def extra(uni, tier, seed):
     out = []
+    # deepcopy is specified as observer-preserving: no teaal class customises copying or pickling
+    bad = []
+    for rel in extract.all_repo_modules():
+        for n in ast.walk(extract.module(rel).tree):
+            if isinstance(n, ast.FunctionDef) and n.name in ("__deepcopy__", "__copy__", "__reduce__", "__reduce_ex__",
+                                                             "__getstate__", "__setstate__", "__getnewargs__"):
+                bad.append("%s:%d %s" % (rel, n.lineno, n.name))
+    out.append(Extra("structural/no teaal class customises copying (deepcopy preserves every observer)", not bad, "; ".join(bad[:4])))
     tn = ast.unparse(extract.module("teaal/trans/hifiber.py").func("HiFiber.__trans_nodes"))
     ok = tn.count("self.graphics.make_body()") == 1 and tn.count("self.graphics.make_header()") == 1 \
         and "code.add(self.eqn.make_update())\n" in tn and tn.index("self.eqn.make_update()") < tn.index("self.graphics.make_body()")
